@@ -87,3 +87,37 @@ def pc_refusals(case, lo):
                      % (case.meta["scheme"], r["why"], r["poly"], len(case.fields["poly.%d" % r["poly"]]) - 1,
                         case.fields["bound.%d" % r["poly"]][0]))
     return fails
+
+
+def pc_hiding(case, lo):
+    """C07 on the implementation: equal streams -> equal commitments, independent streams -> different
+    commitments and proofs for hiding polynomials, no blinding and no draws without a hiding bound,
+    refusal when hiding is requested without an RNG"""
+    fails = []
+    if case.kind != "pc" or "c07" not in case.fields or lib_s(lo, "commit") != "ok":
+        return fails
+    sch = case.meta["scheme"]
+    n = case.meta["n"]
+    hid = [sch == "hyrax" or case.fields["hiding.%d" % i][0] != "none" for i in range(n)]
+    for i in range(n):
+        tag = "%s polynomial %d (%s)" % (sch, i, case.meta["shapes"][i])
+        if lib_s(lo, "same_seed.%d" % i) not in (None, "equal"):
+            fails.append("%s: the same RNG stream gives a different commitment" % tag)
+        if hid[i]:
+            if lib_s(lo, "diff_seed.%d" % i) == "equal":
+                fails.append("%s: hiding commitment does not depend on the RNG stream" % tag)
+            if lib_s(lo, "repeat_distinct.%d" % i) == "no":
+                fails.append("%s: repeated hiding commitments under different streams collide" % tag)
+            if lib_s(lo, "proof_diff.%d" % i) == "equal":
+                fails.append("%s: opening proofs of differently blinded commitments are identical" % tag)
+        elif lib_s(lo, "diff_seed.%d" % i) == "differ":
+            fails.append("%s: commitment without hiding bound depends on the RNG" % tag)
+    r = lib_s(lo, "commit_without_rng")
+    if any(hid) and r == "ok":
+        fails.append("%s commit with a hiding bound and no RNG returned commitments" % sch)
+    if not any(hid):
+        if r is not None and r != "ok":
+            fails.append("%s commit without hiding bounds needs an RNG (%s)" % (sch, r))
+        if lib_s(lo, "commit_rng_bytes") not in (None, "0"):
+            fails.append("%s commit without hiding bounds consumed %s bytes of the caller's RNG" % (sch, lib_s(lo, "commit_rng_bytes")))
+    return fails
